@@ -37,6 +37,17 @@ def bare_leaves(node):
     return []
 
 
+def qualified_leaves(node):
+    """Type names an annotation refers to THROUGH the stub class (cstruct.X): they have to be declared at its top level."""
+    if isinstance(node, ast.BinOp) and isinstance(node.op, ast.BitOr):
+        return qualified_leaves(node.left)
+    if isinstance(node, ast.Subscript):
+        return qualified_leaves(node.slice)
+    if isinstance(node, ast.Attribute) and isinstance(node.value, ast.Name):
+        return [blank(node.attr)]
+    return []
+
+
 def blank(name):
     return "" if name.startswith("__anonymous_") else name
 
@@ -63,18 +74,19 @@ def project_stub(text):
                 out["other"].append(f"annotation {n.target.id}")
         elif isinstance(n, ast.ClassDef):
             base = hint_tree(n.bases[0])["id"] if n.bases else ""
-            fields, members, bare, inline = [], [], [], []
+            fields, members, bare, inline, qual = [], [], [], [], []
             for b in n.body:
                 if isinstance(b, ast.AnnAssign) and isinstance(b.target, ast.Name):
                     fields.append([b.target.id, hint_tree(b.annotation)])
                     bare += bare_leaves(b.annotation)
+                    qual += qualified_leaves(b.annotation)
                 elif isinstance(b, ast.Assign) and len(b.targets) == 1 and isinstance(b.targets[0], ast.Name):
                     members.append(b.targets[0].id)
                 elif isinstance(b, ast.ClassDef):
                     inline.append(blank(b.name))
             out["classes"].append({"name": n.name, "base": base, "fields": fields, "members": members})
             # names a hint uses without the stub class prefix must be declared in the same class body (inline classes)
-            out["scopes"].append({"name": n.name, "bare": sorted(set(bare)), "inline": sorted(set(inline))})
+            out["scopes"].append({"name": n.name, "bare": sorted(set(bare)), "inline": sorted(set(inline)), "qual": sorted(set(qual))})
         elif isinstance(n, ast.Expr) and isinstance(n.value, ast.Constant) and n.value.value is Ellipsis:
             pass
         else:
